@@ -512,3 +512,207 @@ Section LitRefine.
       + lr_nn IHt.
   Qed.
 End LitRefine.
+
+(** ** the two top-level functions and the whole request *)
+Lemma validate_nodup E dt : forall l t a, validate_coercion E dt l t a = true -> lit_nodup l = true.
+Proof.
+  induction l as [n|z|m k|s|b| |n|vs IHl|fs IHf] using lit_ind'; try reflexivity.
+  - (* lists *)
+    intros t; induction t as [n|t' IHt|t' IHt]; intros a H; simpl in H.
+    + destruct (aget n E) as [[k|vals|fields h]|]; try discriminate. destruct k; discriminate.
+    + simpl. apply forallb_forall. intros x Hx. rewrite forallb_forall in H. rewrite Forall_forall in IHl.
+      eapply IHl; eauto.
+    + eapply IHt; eauto.
+  - (* objects *)
+    intros t; induction t as [n|t' IHt|t' IHt]; intros a H; simpl in H.
+    + destruct (aget n E) as [[k|vals|fields h]|]; try discriminate. { destruct k; discriminate. }
+      apply andb_true_iff in H as [H _]. apply andb_true_iff in H as [D F].
+      simpl. rewrite dup_names_has_dup, D. simpl.
+      apply forallb_forall. intros [k x] Hx. rewrite forallb_forall in F. specialize (F _ Hx). simpl in F.
+      rewrite Forall_forall in IHf. destruct (aget k fields); try discriminate. eapply (IHf (k, x)); eauto.
+    + destruct a; try discriminate. eapply IHt; eauto.
+    + eapply IHt; eauto.
+Qed.
+
+Lemma aget_fold_mset_nodup {A} (args : list (name * A)) : forall m0 k,
+  dup_names (map fst args) = false ->
+  aget k (fold_left (fun m (a : name * A) => mset (fst a) (snd a) m) args m0) =
+  match aget k args with Some v => Some v | None => aget k m0 end.
+Proof.
+  induction args as [|[k' v'] r IH]; simpl; intros m0 k D; auto.
+  apply orb_false_iff in D as [D1 D2]. rewrite IH by auto.
+  destruct (bytes_eqb k k') eqn:B.
+  - apply bytes_eqb_eq in B; subst.
+    assert (N : aget k' r = None).
+    { destruct (aget k' r) eqn:G; auto. apply aget_In in G. exfalso.
+      assert (X : existsb (bytes_eqb k') (map fst r) = true).
+      { apply existsb_exists. exists k'. split; [change k' with (fst (k', a)); apply in_map; auto|apply bytes_eqb_refl]. }
+      congruence. }
+    rewrite N. apply aget_mset_same.
+  - destruct (aget k r); auto. apply aget_mset_other. intro; subst. rewrite bytes_eqb_refl in B; discriminate.
+Qed.
+
+Section TopRefine.
+  Variable E : env.
+  Variable dt : bytes -> option bytes.
+  Hypothesis HE : env_ok E = true.
+  Let fx := all_fixed.
+
+  Lemma type_known_ref t : type_known E t = ref_type_known E t.
+  Proof. induction t; simpl; auto. Qed.
+
+  Lemma variable_values_refine defs raw :
+    (forall def dflt, In def defs -> vd_default def = Some dflt -> lit_nodup dflt = true) ->
+    (forall p, In p raw -> jval_ok (snd p) = true) ->
+    agrees (coerce_variable_values fx E dt defs raw) (ref_variable_values E dt defs raw).
+  Proof.
+    intros Hd Hr. unfold coerce_variable_values, ref_variable_values.
+    assert (G : forall acc acc', agrees acc acc' ->
+                agrees (fold_left (var_step fx E dt raw) defs acc) (fold_left (ref_var_step E dt raw) defs acc')).
+    { induction defs as [|def r IH]; intros acc acc' Ha; simpl; auto.
+      apply IH; [intros; eapply Hd; eauto; right; auto|].
+      destruct acc as [m| |]; simpl in Ha; subst; simpl; auto.
+      rewrite type_known_ref. destruct (negb (ref_type_known E (vd_type def))); [reflexivity|].
+      destruct (aget (vd_name def) raw) as [j|] eqn:R.
+      - pose proof (var_value_refines fx E dt eq_refl eq_refl j (Hr _ (aget_In _ _ _ R)) (vd_type def) true) as V.
+        destruct (coerce_var_value fx E dt j (vd_type def) true); simpl in V; rewrite ?V; simpl; auto.
+      - destruct (vd_default def) as [dflt|] eqn:D.
+        + pose proof (literal_refines fx E dt HE eq_refl eq_refl [] dflt (Hd def dflt (or_introl eq_refl) D) (vd_type def) true) as V.
+          destruct (coerce_literal fx E dt [] dflt (vd_type def) true); simpl in V; rewrite ?V; simpl; auto.
+        + destruct (is_nonnull (vd_type def)); reflexivity. }
+    apply G. reflexivity.
+  Qed.
+
+  Lemma aget_map_abs vv (args : list (name * lit)) k :
+    aget k (map (fun p => match p with (k, l) => (k, abs_lit vv l) end) args) = option_map (abs_lit vv) (aget k args).
+  Proof. induction args as [|[k' l] r IH]; simpl; auto. destruct (bytes_eqb k k'); auto. Qed.
+
+  Lemma map_fst_abs_args vv (args : list (name * lit)) :
+    map fst (map (fun p => match p with (k, l) => (k, abs_lit vv l) end) args) = map fst args.
+  Proof. induction args as [|[k v] r IH]; simpl; congruence. Qed.
+
+  Lemma is_null_abs_lit vv l : is_null_ival (abs_lit vv l) =
+    match l with LNull => true | LVar n => match aget n vv with Some g => is_nil g | None => false end | _ => false end.
+  Proof. destruct l; simpl; auto. - destruct (aget n vv); reflexivity. - destruct (f64_of_decimal m k); reflexivity. Qed.
+
+  Lemma argument_values_refine argdefs args vv :
+    dup_names (map fst args) = false ->
+    (forall a l, In (a, l) args -> lit_nodup l = true) ->
+    agrees (coerce_argument_values fx E dt argdefs args vv)
+           (ref_argument_values E dt argdefs (map (fun p => match p with (k, l) => (k, abs_lit vv l) end) args)).
+  Proof.
+    intros Da Hn. unfold coerce_argument_values, ref_argument_values.
+    rewrite map_fst_abs_args, Da.
+    set (av := fold_left (fun m (a : name * lit) => mset (fst a) (snd a) m) args []).
+    set (args' := map (fun p => match p with (k, l) => (k, abs_lit vv l) end) args).
+    assert (Av : forall k, aget k av = aget k args).
+    { intro k. unfold av. rewrite aget_fold_mset_nodup by auto. destruct (aget k args); reflexivity. }
+    assert (G : forall acc acc', agrees acc acc' ->
+                agrees (fold_left (arg_step fx E dt av vv) argdefs acc) (fold_left (ref_arg_step E dt args') argdefs acc')).
+    { induction argdefs as [|[aname d] r IH]; intros acc acc' Ha; simpl; auto.
+      apply IH. destruct acc as [m| |]; simpl in Ha; subst; simpl; auto.
+      rewrite Av. unfold args'. rewrite aget_map_abs.
+      destruct (aget aname args) as [l|] eqn:Ga; cbn [option_map].
+      - pose proof (literal_refines fx E dt HE eq_refl eq_refl vv l (Hn _ _ (aget_In _ _ _ Ga)) (in_type d) true) as V.
+        rewrite (is_absent_abs_lit vv l), is_null_abs_lit.
+        destruct l as [vn|z|m0 k0|s|b| |en|vs|fs]; cbn [absent_var negb];
+          try (destruct (in_default d); rewrite ?andb_false_r; cbn [andb orb negb]; unfold agrees in V |- *;
+               match goal with |- context [coerce_literal fx E dt vv ?l (in_type d) true] =>
+                 destruct (coerce_literal fx E dt vv l (in_type d) true); rewrite ?V; try reflexivity; exact I end; fail).
+        + (* a variable as the whole argument *)
+          unfold ahas. destruct (aget vn vv) as [value|] eqn:Hv; cbn [negb].
+          * rewrite cl_eq in V. cbn iota in V. rewrite Hv in V. cbn [fx all_fixed fix_null_var andb] in V |- *.
+            destruct (in_default d); cbn [andb orb negb];
+              (destruct (is_nonnull (in_type d)) eqn:N; destruct (is_nil value) eqn:Z; cbn [andb orb] in V |- *;
+               try reflexivity; unfold agrees in V |- *; rewrite V; reflexivity).
+          * destruct (in_default d); [reflexivity|]. cbn [andb orb negb].
+            destruct (is_nonnull (in_type d)); reflexivity.
+        + (* the null literal *)
+          destruct (is_nonnull (in_type d)) eqn:N.
+          * destruct (in_default d); cbn [andb orb negb]; rewrite cl_eq; cbn iota; rewrite N; reflexivity.
+          * destruct (in_default d); cbn [andb orb negb]; unfold agrees in V |- *;
+              (destruct (coerce_literal fx E dt vv LNull (in_type d) true); rewrite ?V; try reflexivity; exact I).
+      - destruct (in_default d); [reflexivity|]. cbn [andb orb negb].
+        destruct (is_nonnull (in_type d)); reflexivity. }
+    apply G. reflexivity.
+  Qed.
+End TopRefine.
+
+(** ** the whole request: for every document the validator accepts, what the resolver is called
+    with is exactly the reference coercion, and when there is none the client gets an error and
+    nothing is called *)
+Section RequestRefine.
+  Variable E : env.
+  Variable dt : bytes -> option bytes.
+  Hypothesis HE : env_ok E = true.
+
+  Lemma static_ok_facts fx site argdefs defs args :
+    static_ok fx E dt site argdefs defs args = true ->
+    dup_names (map fst args) = false /\
+    (forall a l, In (a, l) args -> lit_nodup l = true) /\
+    (forall def dflt, In def defs -> vd_default def = Some dflt -> lit_nodup dflt = true).
+  Proof.
+    unfold static_ok. intro St. repeat (apply andb_true_iff in St as [St ?]).
+    split; [|split].
+    - rewrite dup_names_has_dup.
+      match goal with X : negb (has_dup (map fst args)) = true |- _ => apply negb_true_iff in X; exact X end.
+    - intros a l Hin.
+      match goal with X : forallb (fun a => match aget (fst a) argdefs with Some d => validate_coercion _ _ _ _ _ | None => false end) args = true |- _ =>
+        rewrite forallb_forall in X; specialize (X _ Hin); simpl in X end.
+      destruct (aget a argdefs); try discriminate. eapply validate_nodup; eauto.
+    - intros def dflt Hin D.
+      match goal with X : forallb (fun def => match vd_default def with Some dflt => _ && validate_coercion _ _ _ _ _ | None => true end) defs = true |- _ =>
+        rewrite forallb_forall in X; specialize (X _ Hin); rewrite D in X end.
+      apply andb_true_iff in H3 as [_ V]. eapply validate_nodup; eauto.
+  Qed.
+
+  Theorem request_refines site argdefs defs args raw :
+    (forall p, In p raw -> jval_ok (snd p) = true) ->
+    static_ok all_fixed E dt site argdefs defs args = true ->
+    match run_request all_fixed E dt site argdefs defs args raw with
+    | OCalled m => ref_request E dt argdefs defs args raw = Some m
+    | ORuntimeError => ref_request E dt argdefs defs args raw = None
+    | OPanic => True
+    | OStaticReject => False
+    end.
+  Proof.
+    intros Hr St. destruct (static_ok_facts _ _ _ _ _ St) as (Da & Ha & Hd).
+    unfold run_request, ref_request. rewrite St. cbn [negb].
+    pose proof (variable_values_refine E dt HE defs raw Hd Hr) as V.
+    destruct (coerce_variable_values all_fixed E dt defs raw) as [vv| |]; simpl in V; [|rewrite V; reflexivity|exact I].
+    rewrite V.
+    pose proof (argument_values_refine E dt HE argdefs args vv Da Ha) as A.
+    destruct (coerce_argument_values all_fixed E dt argdefs args vv); simpl in A; auto.
+  Qed.
+
+  Corollary called_is_reference site argdefs defs args raw m :
+    (forall p, In p raw -> jval_ok (snd p) = true) ->
+    run_request all_fixed E dt site argdefs defs args raw = OCalled m ->
+    ref_request E dt argdefs defs args raw = Some m.
+  Proof.
+    intros Hr H. destruct (static_ok all_fixed E dt site argdefs defs args) eqn:St.
+    - pose proof (request_refines site argdefs defs args raw Hr St) as R. rewrite H in R. exact R.
+    - unfold run_request in H. rewrite St in H. discriminate.
+  Qed.
+
+  Corollary reject_no_call site argdefs defs args raw :
+    (forall p, In p raw -> jval_ok (snd p) = true) ->
+    ref_request E dt argdefs defs args raw = None ->
+    forall m, run_request all_fixed E dt site argdefs defs args raw <> OCalled m.
+  Proof.
+    intros Hr N m H. rewrite (called_is_reference _ _ _ _ _ _ Hr H) in N. discriminate.
+  Qed.
+
+  (** and conversely: a request the validator accepts and the reference can coerce is served *)
+  Corollary reference_is_served site argdefs defs args raw m :
+    (forall p, In p raw -> jval_ok (snd p) = true) ->
+    static_ok all_fixed E dt site argdefs defs args = true ->
+    ref_request E dt argdefs defs args raw = Some m ->
+    run_request all_fixed E dt site argdefs defs args raw = OCalled m \/
+    run_request all_fixed E dt site argdefs defs args raw = OPanic.
+  Proof.
+    intros Hr St R. pose proof (request_refines site argdefs defs args raw Hr St) as Q.
+    destruct (run_request all_fixed E dt site argdefs defs args raw) as [ | |m'| ];
+      [contradiction|rewrite Q in R; discriminate|left; rewrite Q in R; inversion R; reflexivity|right; reflexivity].
+  Qed.
+End RequestRefine.
